@@ -89,3 +89,24 @@ func Ob_C03_Hook_PairResetsGlobal() {
 	sym.Assert("C03.pair-resets-global", nodekeeper.VerifGetSharesBeforeModified().IsZero())
 	_ = nodetypes.ModuleName
 }
+
+// C03 restart equivalence on provider selection: after a selection whose transaction is rolled back (a
+// failed or simulated MsgStore), a node that keeps running and a node restarted from its database select
+// the same provider and store the same cursor for the next order.
+func Ob_C03C15_Restart_Selection() {
+	w := NewWorld()
+	sym.SetEnumBound("node", nodetypes.NodeKeyPrefix, 2)
+	size := sym.Int64("size")
+	sym.Assume(size >= 1 && size < 1<<40)
+	snap := w.Snapshot()
+	w.Node.GetNextSuperNodes(w.Ctx, spStatus, 8000.0, nil, size) // part of a transaction that is rolled back
+	w.Rollback(snap)
+	a := w.Node.GetNextSuperNodes(w.Ctx, spStatus, 8000.0, nil, size) // the node that kept running
+	ra, hasA := w.Node.GetNodeRound(w.Ctx)
+	w.Rollback(snap)
+	t := w.Rewire() // the node restarted from its database
+	b := t.Node.GetNextSuperNodes(t.Ctx, spStatus, 8000.0, nil, size)
+	rb, hasB := t.Node.GetNodeRound(t.Ctx)
+	sym.Cover("C03.restart-selection")
+	sym.Assert("C03.same-selection-after-restart", a.Creator == b.Creator && hasA == hasB && ra == rb)
+}
